@@ -284,7 +284,9 @@ func (r *scopeRegistry) purgeIfRootClosed() {
 	for _, subscopeBucket := range r.subscopes {
 		subscopeBucket.mu.Lock()
 		for k, s := range subscopeBucket.s {
-			_ = s.Close()
+			if s != r.root {
+				_ = s.Close()
+			}
 			s.clearMetrics()
 			delete(subscopeBucket.s, k)
 		}
